@@ -366,6 +366,92 @@ fn run2d<T: Fl>(job: &Job, quick: bool, out: &mut JobOut) {
     run2d_l::<T>(job, true, out, 0);
 }
 
+/// integer axes (Linear only): the closed-range test must be exact also beyond 2^53
+fn int_axes(out: &mut JobOut) {
+    use ndarray::{Array1 as A1, Array2 as A2};
+    use ndarray_interp::interp1d::{Interp1DBuilder, Linear};
+    use ndarray_interp::interp2d::Interp2DBuilder;
+    macro_rules! go {
+        ($t:ty, $axes:expr) => {
+            for x in $axes {
+                let x: Vec<$t> = x;
+                let n = x.len();
+                let key = format!("{}:int{:?}", stringify!($t), x).replace(' ', "");
+                let data = A2::from_shape_fn((n, 2), |(i, j)| (i as $t) * 4 + (j as $t));
+                let Ok(ip) = Interp1DBuilder::new(data).x(A1::from(x.clone())).strategy(Linear::new()).build() else {
+                    out.violate(format!("{key}:build"), "valid integer axis rejected".to_string(), Json::Null);
+                    continue;
+                };
+                out.states += 1;
+                let (lo, hi) = (x[0], x[n - 1]);
+                let mut qs: Vec<$t> = vec![lo, hi, x[1.min(n - 1)], <$t>::MAX, <$t>::MIN];
+                if let Some(v) = lo.checked_sub(1) { qs.push(v); }
+                if let Some(v) = hi.checked_add(1) { qs.push(v); }
+                if let Some(v) = lo.checked_sub(2) { qs.push(v); }
+                if let Some(v) = hi.checked_add(2) { qs.push(v); }
+                if let Some(v) = lo.checked_add(1) { qs.push(v.min(hi)); }
+                for &q in &qs {
+                    let want_ok = lo <= q && q <= hi;
+                    let calls: Vec<(&str, Result<bool, String>)> = vec![
+                        ("interp", catch(|| ip.interp(q).is_ok())),
+                        ("interp_array/Ix1", catch(|| ip.interp_array(&A1::from(vec![lo, q, hi])).is_ok())),
+                        ("interp_array/Ix2", catch(|| ip.interp_array(&A2::from_shape_vec((1, 3), vec![hi, q, lo]).unwrap()).is_ok())),
+                        ("is_in_range", catch(|| ip.is_in_range(q))),
+                    ];
+                    for (call, r) in calls {
+                        let got = match r { Ok(true) => "Ok".to_string(), Ok(false) => "Err(OutOfBounds)".to_string(), Err(_) => "panic".to_string() };
+                        verdict(out, &key, "Linear(integer axis)", call, format!("q={q}"), want_ok, got, true, &|| Json::obj(vec![("type", Json::str(stringify!($t))), ("x", Json::str(&format!("{x:?}"))), ("query", Json::str(&format!("{q}")))]));
+                    }
+                }
+                // 2-D: the same axis as x and as y
+                let d2 = A2::from_shape_fn((n, n), |(i, j)| (i as $t) * 8 + (j as $t));
+                if let Ok(ip2) = Interp2DBuilder::new(d2).x(A1::from(x.clone())).y(A1::from(x.clone())).build() {
+                    for &q in &qs {
+                        let want_ok = lo <= q && q <= hi;
+                        for (call, r) in [("Interp2D::interp_scalar(q, lo)", catch(|| ip2.interp_scalar(q, lo).is_ok())), ("Interp2D::interp_scalar(hi, q)", catch(|| ip2.interp_scalar(hi, q).is_ok()))] {
+                            let got = match r { Ok(true) => "Ok".to_string(), Ok(false) => "Err(OutOfBounds)".to_string(), Err(_) => "panic".to_string() };
+                            verdict(out, &key, "Bilinear(integer axes)", call, format!("q={q}"), want_ok, got, true, &|| Json::obj(vec![("type", Json::str(stringify!($t))), ("x", Json::str(&format!("{x:?}"))), ("query", Json::str(&format!("{q}")))]));
+                        }
+                    }
+                }
+            }
+        };
+    }
+    let b = 1i64 << 60;
+    go!(i64, vec![vec![-5i64, 0, 7], vec![0, 1], vec![b, b + 2, b + 5], vec![-b - 9, -b - 4, -b], vec![(1 << 53) - 1, (1 << 53) + 1, (1 << 53) + 3], vec![-7, b]]);
+    let c = 1i32 << 30;
+    go!(i32, vec![vec![-5i32, 0, 7], vec![c, c + 2, c + 5], vec![-c, 0, c - 1], vec![(1 << 24) - 1, (1 << 24) + 1, (1 << 24) + 3]]);
+    go!(u32, vec![vec![0u32, 3, 4], vec![u32::MAX - 5, u32::MAX - 3, u32::MAX], vec![7, 1 << 31]]);
+    go!(u8, vec![vec![0u8, 3, 255], vec![250, 252, 255]]);
+}
+
+/// the query array is a view into the buffer that also holds the axis (same start and length,
+/// another stride): it is a query like any other
+fn alias_axis_query(out: &mut JobOut) {
+    use ndarray::{s, Array1 as A1};
+    use ndarray_interp::interp1d::{Interp1DBuilder, Linear};
+    let b: A1<f64> = A1::from((0..16).map(|i| i as f64 * 0.5).collect::<Vec<_>>());
+    for (xs, qs) in [(1isize, 2isize), (1, 3), (2, 1), (1, 1)] {
+        let x = b.slice(s![..;xs]);
+        let n = 4;
+        let x = x.slice(s![..n]);
+        let q = b.slice(s![..;qs]);
+        let q = q.slice(s![..n]);
+        let data: A1<f64> = (0..n).map(|i| 10.0 + i as f64).collect();
+        let Ok(ip) = Interp1DBuilder::new(data).x(x).strategy(Linear::new()).build() else { continue };
+        out.states += 1;
+        let want_ok = q.iter().all(|&v| x[0] <= v && v <= x[n - 1]);
+        let key = format!("alias:x-stride{xs}:q-stride{qs}");
+        for (call, r) in [
+            ("interp_array", catch(|| ip.interp_array(&q).is_ok())),
+            ("interp_array_into", catch(|| { let mut buf = A1::<f64>::zeros(n); ip.interp_array_into(&q, buf.view_mut()).is_ok() })),
+        ] {
+            let got = match r { Ok(true) => "Ok".to_string(), Ok(false) => "Err(OutOfBounds)".to_string(), Err(_) => "panic".to_string() };
+            verdict(out, &key, "Linear", call, format!("query {:?} aliasing the axis {:?}", q.to_vec(), x.to_vec()), want_ok, got, true, &|| Json::obj(vec![("x", Json::f64s(&x.to_vec())), ("query", Json::f64s(&q.to_vec()))]));
+        }
+    }
+}
+
 fn body(ctx: &Ctx) -> (Summary, Meta) {
     let quick = ctx.quick();
     let mut jobs = vec![];
@@ -403,8 +489,16 @@ fn body(ctx: &Ctx) -> (Summary, Meta) {
         }
         out
     });
+    let mut sum = sum;
+    sum.merge(run_jobs(ctx, "integer-axes-and-aliasing", &[()], |_| "int+alias".to_string(), |_| {
+        let mut out = JobOut::default();
+        int_axes(&mut out);
+        alias_axis_query(&mut out);
+        out.sample = Some(Json::str("i64 / i32 / u32 / u8 axes incl. ends beyond 2^53 and at the type limits; queries that are views into the axis buffer"));
+        out
+    }));
     let meta = Meta {
-        rule: "every axis x {Linear, CubicSpline NotAKnot/Natural/Periodic/Individual, Bilinear on every ordered axis pair} x every entry point (scalar, interp, interp_into, interp_array and interp_array_into with static ranks 0..4 and dynamic rank) x single queries {ends, 1 and 2 ulp inside/outside, mid, +-inf, NaN, +-MAX, far} and batches of 8 shapes with one offending element {below, above, NaN, +inf} at every position and two at every pair; oracle: Ok iff every element lies in the closed range, else Err(OutOfBounds), never a panic. Non-trivial = expected Err, or query within 2 ulp of a range end.".into(),
+        rule: "every axis x {Linear, CubicSpline NotAKnot/Natural/Periodic/Individual, Bilinear on every ordered axis pair} x every entry point (scalar, interp, interp_into, interp_array and interp_array_into with static ranks 0..4 and dynamic rank) x single queries {ends, 1 and 2 ulp inside/outside, mid, +-inf, NaN, +-MAX, far} and batches of 8 shapes with one offending element {below, above, NaN, +inf} at every position and two at every pair; oracle: Ok iff every element lies in the closed range, else Err(OutOfBounds), never a panic. Plus integer axes (i64, i32, u32, u8; ends beyond 2^53 and at the limits of the type, queries one and two below / above the ends) and queries that are views into the buffer of the axis. Non-trivial = expected Err, or query within 2 ulp of a range end.".into(),
         bounds: format!("{njobs} (type, axis or grid) jobs; tier {}", ctx.tier.name()),
         assumptions: vec![],
         extra: vec![],
